@@ -84,7 +84,7 @@ def gen_script(rng, opts=None):
         steps.append(["stream", "full"]); steps.append(["stream", "full"])
     case = {"strategies": ns, "steps": steps}
     if opts.get("limits"):
-        case["limits"] = {"max_trades": rng.choice([1, 2, 3, 10 ** 6]), "max_live": rng.choice([1, 1, 2, 10 ** 6]), "multi": rng.random() < 0.5,
+        case["limits"] = {"max_trades": rng.choice([0, 1, 2, 3, 10 ** 6, 10 ** 6]), "max_live": rng.choice([0, 1, 1, 2, 10 ** 6]), "multi": rng.random() < 0.5,
                           "place_reset": rng.choice([0.0, 0.0, 2.0, 5.0]), "reset": rng.choice([0.0, 0.0, 2.0, 5.0])}
     return case
 
